@@ -118,7 +118,7 @@ def run(ctx):
     # counter bookkeeping
     tt = rt.s(tick['body'])
     ctx.inst(D3)
-    for piece in ('(= f:%s::counter0 0) (+= f:%s::counter1 1)' % (CH, CH), '(= f:%s::counter1 0) (+= f:%s::counter2 1)' % (CH, CH),
+    for piece in ('(= f:%s::counter0 0) (++ f:%s::counter1)' % (CH, CH), '(= f:%s::counter1 0) (++ f:%s::counter2)' % (CH, CH),
                   '(= f:%s::running 0)' % CH):
         if piece not in tt:
             ctx.report(D3, tick, tick['body'], 'counter carry', 'missing carry step: ' + piece)
@@ -127,7 +127,7 @@ def run(ctx):
     ok = top and rt.r(top[0]['cond']) == 'f:%s::dword_mode' % CH
     if ok:
         th, el = rt.s(top[0]['then']), rt.s(top[0]['else'])
-        ok = th.rstrip('}').endswith('(+= f:%s::counter0 2)' % CH) and el.rstrip('}').endswith('(+= f:%s::counter0 1)' % CH)
+        ok = th.rstrip('}').endswith('(+= f:%s::counter0 2)' % CH) and el.rstrip('}').endswith('(++ f:%s::counter0)' % CH)
         for side in ('src', 'dst'):
             if ('(& f:%s::current_%s 4294967294)' % (CH, side) not in th and '(& 4294967294 f:%s::current_%s)' % (CH, side) not in th) or \
                     ('(| 1 f:%s::current_%s)' % (CH, side) not in th and '(| f:%s::current_%s 1)' % (CH, side) not in th):
@@ -184,7 +184,8 @@ def run(ctx):
                 if not nm:
                     continue
                 ctx.oblig(D5)
-                adv = [rf.r(n['rhs']) for s_ in a['stmts'] for n in walk(s_) if n.get('k') == 'assign' and n.get('op') == '+=' and rf.r(n['lhs']).startswith('l:current')]
+                adv = [rf.r(n['rhs']) for s_ in a['stmts'] for n in walk(s_) if n.get('k') == 'assign' and n.get('op') == '+=' and rf.r(n['lhs']).startswith('l:current')] \
+                    + ['1' for s_ in a['stmts'] for n in walk(s_) if n.get('k') == 'un' and n.get('op') in ('++', 'post++') and rf.r(n['e']).startswith('l:current')]
                 want = {'U8': '1', 'U16': '2', 'U32': '4'}[nm[0]]
                 if adv != [want]:
                     ctx.report(D5, f, a['stmts'][0] if a['stmts'] else sw_[0], '%s %s advance' % (short_fn(f['id']).split('::')[-1], nm[0]),
